@@ -24,7 +24,8 @@ def init_files():
     B = lambda k, n: '[k |-> "%s", n |-> %d]' % (k, n)
     si = B("si", 34)
     files = []
-    for pads in ([], [0], [3], [4], [5], [8], [12], [2, 6], [0, 9]):
+    # (44 = one icon block with its header: padding that holds exactly one, two, or one and a bit of the refused second one)
+    for pads in ([], [0], [3], [4], [5], [8], [12], [2, 6], [0, 9], [44], [88], [100], [43, 60]):
         for body in ([], [B("vc", 20)], [B("vc", 20), B("app", 10)]):
             # padding after the other blocks (the encoder's layout) ...
             files.append([si] + body + [B("pad", p) for p in pads])
@@ -76,6 +77,16 @@ cEdits == %s
     for d in (-8, -1, 0, 1, 8):
         histories.append({"init": [["si", 34], ["vc", 20], ["pad", M - 5]], "edits": [{"op": "set_vc", "n": 20 - d if d <= 0 else 20 - d}]})
         histories.append({"init": [["si", 34], ["vc", 40], ["pad", M - 3 + min(d, 0)]], "edits": [{"op": "set_vc", "n": 40 - 4 + d}, {"op": "set_vc", "n": 12}]})
+    # refusals by the cross-block rules (a second PNG icon) where the refused list WOULD have fitted in place: with padding in front of /
+    # behind the other blocks, an icon already in the file or added by the previous update, and an accepted edit after the refusal
+    for pad in (44, 45, 88, 100, 4096):
+        for front in (False, True):
+            body = [["vc", 20], ["app", 10]]
+            base = [["si", 34]] + ([["pad", pad]] + body if front else body + [["pad", pad]])
+            ic = {"op": "add_icon", "n": 40}
+            histories.append({"init": base, "edits": [ic, ic, {"op": "set_vc", "n": 24}]})
+            histories.append({"init": base + [["icon", 40]], "edits": [ic, {"op": "set_vc", "n": 16}]})
+            histories.append({"init": [base[0], ["icon", 40]] + base[1:], "edits": [{"op": "rm_app", "n": 0}, ic, ic]})
     rnd = random.Random(seed() * 17 + 10)
     # longer random histories over the same alphabet (impl -> spec)
     alphabet = [{"op": "add_app", "n": n} for n in (4, 5, 9, 10, 16, 300)] + [{"op": "rm_app", "n": 0}, {"op": "rm_vc", "n": 0}, {"op": "rm_pad", "n": 0},
